@@ -33,10 +33,14 @@ def handle : Handler := fun op j =>
     let cfg : Cfg := { maxGen := ← optNatJ (← getObj c "max_gen"), maxEvals := ← optIntJ (← getObj c "max_evals"),
                        hasCriterion := ← getBool c "has_crit" }
     let script ← (← getArr j "script").toList.mapM parseStep
-    let (o, started) := solve cfg script
+    let faultAt ← optNatJ ((j.getObjVal? "fault_at").toOption.getD Json.null)
+    let (oF, started) := solveF cfg script faultAt
     let totals := started.map (fun s => toJson (total s))
     let base := [("started", toJson started.length), ("totals_at_start", Json.arr totals.toArray),
                  ("gens_at_start", toJson (started.map (·.nGen)))]
+    match oF with
+    | .operatorRaised => pure (Json.mkObj ([("outcome", Json.str "fault")] ++ base))
+    | .normal o =>
     match o with
     | .ok r => pure (Json.mkObj ([("outcome", Json.str "ok"), ("eigenvalue", ratJson r.eigenvalue), ("best", toJson r.bestIndividual),
         ("ledger", toJson r.circuitEvaluations), ("generations", toJson r.generations),
